@@ -185,8 +185,11 @@ def encodeBody (alignment : Nat) (bufs : List (List Nat)) : List (Nat × Nat) ×
   let tailPad := padToAlignment alignment r.2.2
   (r.1, r.2.1 ++ zeros tailPad)
 
-/-- reader side `read_buffer(buf, a_data, None)`: `a_data.slice_with_length(offset, length)` -/
-def readBuffer (body : List Nat) (e : Nat × Nat) : List Nat := (body.drop e.1).take e.2
+/-- reader side `read_buffer(buf, a_data, None)`: bounds check, then
+`a_data.slice_with_length(offset, length)`; `none` = the error for an out-of-bounds entry -/
+def readBuffer (body : List Nat) (e : Nat × Nat) : Option (List Nat) :=
+  -- `in_bounds` check (offset + length ≤ body length), otherwise `Err(IpcError)`
+  if e.1 + e.2 ≤ body.length then some ((body.drop e.1).take e.2) else none
 
 /-- a whole stream of already-encoded messages followed by the end-of-stream marker
 (`StreamWriter`: schema message, dictionary/record batch messages, `finish`) -/
